@@ -9,6 +9,32 @@ def txt(n):
     return A.ftxt(n)
 
 
+def _lazy_slot(f, name, tape):
+    """the explicit spelling of get_or_insert_with: the slot is filled with this shape's own tape exactly
+    when it is empty, and the slot's content is what is returned"""
+    view = A.value_view(f["body"])
+    fills = [a for a in A.find(view, "Assign") if str(A.ftxt(a["left"])) == "self.%s" % name]
+    if len(fills) != 1:
+        return False
+    rhs = str(A.ftxt(fills[0]["right"]))
+    import re as _re
+
+    m = _re.fullmatch(r"Some\(self\.shape\.%s\((.+)\)\)" % tape, rhs)
+    if not m:
+        return False
+    arg = m.group(1)
+    if arg != "storage.pop().unwrap_or_default()":
+        # recycled storage taken just before: `let s = storage.pop().unwrap_or_default();`
+        lets = [l for l in A.find(view, "Let") if A.binding_name(l["pat"]) == arg and l.get("init") is not None and str(A.ftxt(l["init"])) == "storage.pop().unwrap_or_default()"]
+        if len(lets) != 1:
+            return False
+    conds = [A.norm_cond(c) for c in (A.enclosing_conds(view, fills[0]) or [])]
+    if conds != ["self.%s.is_none()" % name]:
+        return False
+    tail = A.strip(A.stmt_expr(view["stmts"][-1]) or {})
+    return str(A.ftxt(tail)) in ("self.%s.as_ref().unwrap()" % name, "self.%s.as_ref().expect(\"tape\")" % name)
+
+
 def hfn(name, root=None):
     return A.find_fn(RM, name, self_ty="RenderHandle", root=root)
 
@@ -70,7 +96,7 @@ def r_cache_key(rule, root=None):
     for name, tape in (("i_tape", "interval_tape"), ("f_tape", "float_slice_tape"), ("g_tape", "grad_slice_tape")):
         f = hfn(name, root)
         tt = txt(f["body"])
-        if "self.%s.get_or_insert_with(||{self.shape.%s(storage.pop().unwrap_or_default())})" % (name, tape) in tt:
+        if "self.%s.get_or_insert_with(||{self.shape.%s(storage.pop().unwrap_or_default())})" % (name, tape) in tt or _lazy_slot(f, name, tape):
             rule.ok("RenderHandle::%s caches this shape's own %s" % (name, tape), file=RM, line=f["ln"])
         else:
             rule.bad("tape|%s" % name, "RenderHandle::%s must cache `self.shape.%s(..)` in its own slot" % (name, tape), A.where(f))
